@@ -255,3 +255,170 @@ Proof.
   induction ops as [|o ops IH]; intros rs as_ H; cbn [fold_left]; [assumption|].
   apply IH, step_refines, H.
 Qed.
+(* ---------- len = number of iterated members (blocks < 2^32) ---------- *)
+Definition blocks_ok (s : bv) : Prop := Forall (fun b => b < 2 ^ 32) s.
+
+Lemma bits_of_len_indep blk o o' n k : length (bits_of blk o n k) = length (bits_of blk o' n k).
+Proof.
+  revert k. induction n as [|n IH]; intros k; cbn [bits_of]; [reflexivity|].
+  rewrite !app_length, (IH (k + 1)). destruct (negb _); reflexivity.
+Qed.
+
+Lemma bits_of_len_div2 blk o n k :
+  length (bits_of (N.div2 blk) o n k) = length (bits_of blk o n (k + 1)).
+Proof.
+  revert k. induction n as [|n IH]; intros k; cbn [bits_of]; [reflexivity|].
+  rewrite !app_length, IH, !land_bit_test', N.div2_spec, N.shiftr_spec', N.add_1_r.
+  destruct (N.testbit blk (N.succ k)); reflexivity.
+Qed.
+
+Lemma bits_of_len_zero o n k : length (bits_of 0 o n k) = 0%nat.
+Proof.
+  revert k. induction n as [|n IH]; intros k; cbn [bits_of]; [reflexivity|].
+  rewrite app_length, IH, land_bit_test', N.bits_0. reflexivity.
+Qed.
+
+Lemma popcount_bits n : forall p o, Npos p < 2 ^ N.of_nat n ->
+  popcount_pos p = N.of_nat (length (bits_of (Npos p) o n 0)).
+Proof.
+  induction n as [|n IH]; intros p o Hp.
+  - cbn in Hp. lia.
+  - rewrite Nat2N.inj_succ, N.pow_succ_r' in Hp.
+    cbn [bits_of]. rewrite app_length, land_bit_test'.
+    rewrite <- (bits_of_len_div2 (Npos p) o n 0).
+    destruct p as [q|q|]; cbn [popcount_pos N.div2 N.testbit Pos.testbit length].
+    + rewrite (IH q o) by lia. cbn [length]. lia.
+    + rewrite (IH q o) by lia. cbn [length]. lia.
+    + rewrite bits_of_len_zero. reflexivity.
+Qed.
+
+Lemma popcount_block blk o : blk < 2 ^ 32 ->
+  popcount blk = N.of_nat (length (if blk =? 0 then [] else bits_of blk o 32 0)).
+Proof.
+  intros H. destruct blk as [|p]; [reflexivity|].
+  cbn [popcount N.eqb]. apply (popcount_bits 32). exact H.
+Qed.
+
+Lemma len_iter_from s o : blocks_ok s -> bv_len s = N.of_nat (length (bv_iter_from s o)).
+Proof.
+  revert o. induction s as [|blk t IH]; intros o H; [reflexivity|].
+  inversion H as [|? ? Hb Ht]; subst.
+  unfold bv_len in *. cbn [fold_right bv_iter_from]. rewrite app_length, Nat2N.inj_add.
+  rewrite <- (IH (o + 32) Ht), <- popcount_block by assumption. reflexivity.
+Qed.
+
+Lemma len_iter s : blocks_ok s -> bv_len s = N.of_nat (length (bv_iter s)).
+Proof. apply len_iter_from. Qed.
+
+(* ---------- truthiness ---------- *)
+Lemma bool_iter s : blocks_ok s -> bv_bool s = negb (match bv_iter s with [] => true | _ => false end).
+Proof.
+  unfold bv_iter. generalize 0. induction s as [|blk t IH]; intros o H; [reflexivity|].
+  inversion H as [|? ? Hb Ht]; subst. cbn [bv_bool existsb bv_iter_from].
+  destruct (N.eqb_spec blk 0) as [->|Hne]; cbn [negb orb app].
+  - apply IH, Ht.
+  - assert (Hin : In (o + N.log2 blk) (bits_of blk o 32 0)).
+    { apply bits_of_spec. exists (N.log2 blk). repeat split; try lia.
+      - assert (N.log2 blk < 32) by (apply N.log2_lt_pow2; lia). lia.
+      - apply N.bit_log2, Hne. }
+    destruct (bits_of blk o 32 0); [destruct Hin|reflexivity].
+Qed.
+
+Lemma bool_contains s : blocks_ok s -> (bv_bool s = true <-> exists x, bv_contains s x = true).
+Proof.
+  intros H. rewrite (bool_iter s H). split.
+  - destruct (bv_iter s) as [|x l] eqn:E; [discriminate|]. intros _. exists x.
+    apply iter_contains. rewrite E. left. reflexivity.
+  - intros [x Hx]. apply iter_contains in Hx. destruct (bv_iter s); [destruct Hx|reflexivity].
+Qed.
+
+(* ---------- the invariant is preserved by every operation ---------- *)
+Lemma ok_set_block s b bit : blocks_ok s -> bit < 2 ^ 32 -> blocks_ok (set_block s b bit).
+Proof.
+  assert (Hor : forall x y, x < 2 ^ 32 -> y < 2 ^ 32 -> N.lor x y < 2 ^ 32).
+  { intros x y Hx Hy. destruct (N.eq_dec (N.lor x y) 0) as [->|Hne]; [reflexivity|].
+    apply N.log2_lt_pow2; [lia|]. rewrite N.log2_lor.
+    destruct (N.eq_dec x 0) as [->|]; destruct (N.eq_dec y 0) as [->|]; cbn [N.log2 N.max];
+      try (apply N.max_lub_lt); try (apply N.log2_lt_pow2; lia); try lia.
+    all: rewrite ?N.max_0_r, ?N.max_0_l; try (apply N.log2_lt_pow2; lia). }
+  intros Hs Hb. revert s Hs. induction b as [|b IH]; intros [|x t] Hs; cbn [set_block].
+  - constructor; [apply Hor; [reflexivity|assumption]|constructor].
+  - inversion Hs; subst. constructor; [apply Hor; assumption|assumption].
+  - constructor; [reflexivity|apply IH; constructor].
+  - inversion Hs; subst. constructor; [assumption|apply IH; assumption].
+Qed.
+
+Lemma ok_add s x : blocks_ok s -> blocks_ok (bv_add s x).
+Proof.
+  intros H. apply ok_set_block; [assumption|].
+  rewrite N.shiftl_1_l. apply N.pow_lt_mono_r; [lia|]. apply (lo_lt x).
+Qed.
+
+Lemma land_lt x y : x < 2 ^ 32 -> N.land x y < 2 ^ 32.
+Proof.
+  intros Hx. destruct (N.eq_dec (N.land x y) 0) as [->|Hne]; [reflexivity|].
+  apply N.log2_lt_pow2; [lia|].
+  eapply N.le_lt_trans; [apply N.log2_land|].
+  destruct (N.eq_dec x 0) as [->|]; [rewrite N.land_0_l in Hne; congruence|].
+  eapply N.le_lt_trans; [apply N.le_min_l|]. apply N.log2_lt_pow2; lia.
+Qed.
+
+Lemma ok_and a b : blocks_ok a -> blocks_ok (bv_and a b).
+Proof.
+  revert b. induction a as [|x a IH]; intros [|y b] H; cbn [bv_and]; try constructor.
+  - inversion H; subst. apply land_lt; assumption.
+  - inversion H; subst. apply IH; assumption.
+Qed.
+
+Lemma ok_or a b : blocks_ok a -> blocks_ok b -> blocks_ok (bv_or a b).
+Proof.
+  revert b. induction a as [|x a IH]; intros [|y b] Ha Hb; cbn [bv_or]; try assumption.
+  inversion Ha; inversion Hb; subst. constructor; [|apply IH; assumption].
+  pose proof (ok_set_block [x] 0 y). cbn [set_block] in H.
+  assert (blocks_ok [N.lor x y]) by (apply H; [constructor; [assumption|constructor]|assumption]).
+  inversion H0; assumption.
+Qed.
+
+Definition regs_ok (rs : regs) : Prop := Forall blocks_ok rs.
+
+Lemma ok_getr rs r : regs_ok rs -> blocks_ok (getr rs r).
+Proof.
+  intros H. unfold getr. destruct (nth_in_or_default r rs []) as [Hin| ->]; [|constructor].
+  unfold regs_ok in H. rewrite Forall_forall in H. apply H, Hin.
+Qed.
+
+Lemma ok_setr rs r v : regs_ok rs -> blocks_ok v -> regs_ok (setr rs r v).
+Proof.
+  intros H Hv. revert rs H. induction r as [|r IH]; intros [|x t] H; cbn [setr].
+  - constructor; [assumption|constructor].
+  - inversion H; subst. constructor; assumption.
+  - constructor; [constructor|apply IH; constructor].
+  - inversion H; subst. constructor; [assumption|apply IH; assumption].
+Qed.
+
+Lemma step_ok rs o : regs_ok rs -> regs_ok (bv_step bv_iand rs o).
+Proof.
+  intros H. destruct o; cbn [bv_step]; apply ok_setr; try assumption.
+  - apply ok_add, ok_getr, H.
+  - apply ok_and, ok_getr, H.
+  - apply ok_or; apply ok_getr, H.
+  - apply ok_and, ok_getr, H.
+  - apply ok_or; apply ok_getr, H.
+Qed.
+
+Lemma run_ok ops : regs_ok (bv_run bv_iand ops).
+Proof.
+  unfold bv_run.
+  assert (H0 : regs_ok [[]; []; []]) by (repeat constructor).
+  revert H0. generalize ([[]; []; []] : regs).
+  induction ops as [|o ops IH]; intros rs H; cbn [fold_left]; [assumption|].
+  apply IH, step_ok, H.
+Qed.
+
+Lemma run_len ops r :
+  bv_len (getr (bv_run bv_iand ops) r) = N.of_nat (length (bv_iter (getr (bv_run bv_iand ops) r))).
+Proof. apply len_iter, ok_getr, run_ok. Qed.
+
+Lemma run_bool ops r :
+  bv_bool (getr (bv_run bv_iand ops) r) = true <-> exists x, bv_contains (getr (bv_run bv_iand ops) r) x = true.
+Proof. apply bool_contains, ok_getr, run_ok. Qed.
